@@ -109,6 +109,8 @@ func Check(cfg Config, prop string) int {
 
 	var reports []*CaseReport
 	var inconcl []string
+	skippedSeen := map[string]bool{}
+	var skipped []string
 	for _, sc := range sp.Cases {
 		params := append([][]int64(nil), sc.Quick...)
 		for _, r := range sc.QuickRanges {
@@ -135,6 +137,14 @@ func Check(cfg Config, prop string) int {
 				c.WitnessEvery += int(cfg.Seed % 7)
 			}
 			rep := s.Explore(c)
+			if rep.Skipped != "" {
+				if !skippedSeen[rep.Skipped] {
+					skippedSeen[rep.Skipped] = true
+					fmt.Printf("NOTE: %s\n", rep.Skipped)
+				}
+				skipped = append(skipped, c.String())
+				continue
+			}
 			reports = append(reports, rep)
 			fmt.Printf("  %-44s paths=%-7d %v steps=%d %.1fs\n", c.String(), rep.TotalPaths, rep.Paths, rep.Steps, rep.Wall)
 			for _, m := range rep.Inconclusive {
@@ -167,7 +177,10 @@ func Check(cfg Config, prop string) int {
 	replayDir := filepath.Join(cfg.VerifDir, "replays", prop)
 	for _, c := range rr.Cases {
 		if c.Kind == "witness" {
-			if !c.Confirmed && !c.MapOrder {
+			if !c.Confirmed && c.Detail == "no native result" {
+				// the harness is not registered for native replay (or the native run died): never silent
+				inconcl = append(inconcl, fmt.Sprintf("ENGINE-MISMATCH: witness of %s %v: no native result (harness not registered in the package's replay table?)", c.Harness, c.Params))
+			} else if !c.Confirmed && !c.MapOrder {
 				inconcl = append(inconcl, fmt.Sprintf("ENGINE-MISMATCH: witness of %s %v inputs=%s: engine %v vs native %s %s", c.Harness, c.Params, fmtInputs(c.Inputs), c.Observes, c.Native, c.Detail))
 			}
 			continue
@@ -202,6 +215,7 @@ func Check(cfg Config, prop string) int {
 		exit = exitInconclusive
 	}
 	wall := time.Since(t0).Seconds()
+	evidenceSkipped = skipped
 	writeEvidence(cfg, prop, sp, s, reports, rr, wall, nviol, inconcl)
 	switch exit {
 	case exitOK:
@@ -252,6 +266,9 @@ func capWitnesses(cases []*ReplayCase, maxW int) []*ReplayCase {
 	return out
 }
 
+// evidenceSkipped: cases of optional white-box harnesses that were left out in this run.
+var evidenceSkipped []string
+
 func writeEvidence(cfg Config, prop string, sp *SpecProp, s *Session, reports []*CaseReport, rr *ReplayReport, wall float64, nviol int, inconcl []string) {
 	ev := map[string]any{
 		"property_id": prop,
@@ -301,6 +318,9 @@ func writeEvidence(cfg Config, prop string, sp *SpecProp, s *Session, reports []
 	cov["exhaustive"] = len(inconcl) == 0
 	cov["unwinding_complete"] = len(inconcl) == 0
 	cov["inconclusive"] = inconcl
+	if len(evidenceSkipped) > 0 {
+		cov["skipped_optional_cases"] = evidenceSkipped
+	}
 	if sp != nil {
 		cov["bounds"] = sp.Bounds[cfg.Tier]
 		cov["outside_bounds"] = sp.Outside
